@@ -1,4 +1,4 @@
-"""Shared by C16 and C01: the whole-tree correspondence of the COMPLETE engine WITH THE REAL CACHE (wave 7a, notes/REALCACHE.md section 8).
+"""Shared by C16 and C01: the whole-tree correspondence of the COMPLETE engine WITH THE REAL CACHE (wave 7a, notes/REALCACHE.md section 7).
 
 `vh taffytree cases <seed> <n> <start> <family> <maxnodes> real` lays the random mixed trees of the exact-key correspondence
 (lib/props/_taffytree.py: block + flex + grid containers and leaves in any nesting) out through `TaffyTree::compute_layout_with_measure`
